@@ -8,6 +8,10 @@ ASSUMPTIONS = ["the Rust allocator does not abort on the (small) circuits genera
 THEOREMS_NOTE = "Plonk/Props/C07.lean"
 
 SHAPE = ("gates", "wit", "pis", "hg", "hpr", "hr")
+# templates whose varying argument is a circuit CONSTANT (it is written into selectors), not a witness value: the shape
+# legitimately depends on it, so value vectors of these templates are not compared with each other (no-panic and the
+# comparison with the model still apply)
+CONSTANT_VARIES = {"cpt", "mulgen-badgen"}
 
 
 def special_values(rng):
@@ -40,6 +44,20 @@ class V:
         return ext_str(ext_of(random_subgroup_point(r), z=r.choice([1, 7, R - 1])))
 
 
+    def pole(self):
+        """four raw coordinates (x1 y1 x2 y2), mostly ON a pole of the addition law: d*x1*x2*y1*y2 = +1 / -1"""
+        r = self.rng
+        x1, y1, x2 = (r.choice([2, 3, 5, r.fe() or 1]) for _ in range(3))
+        k = r.below(5)
+        if k == 4:
+            y2 = r.fe()
+        else:
+            y2 = (1 if k % 2 == 0 else R - 1) * inv(D * x1 % R * y1 % R * x2 % R) % R
+        if k >= 2:
+            x1, y1, x2, y2 = x2, y2, x1, y1
+        return "w %s;w %s;w %s;w %s" % (hx(x1), hx(y1), hx(x2), hx(y2))
+
+
 def templates():
     """(name, fn(V) -> program text, shape-relevant constants fixed inside the template)"""
     T = []
@@ -60,11 +78,15 @@ def templates():
     T.append(("pub", lambda v: "pub %s;w %s;aeqc $1 9 %s" % (v.fe(), v.fe(), v.fe())))
     T.append(("points", lambda v: "pt %s;pt %s;add $0 $1 $2 $3;sub $0 $1 $2 $3;neg $0 $1;w %s;selid $10 $0 $1;selpt $10 $0 $1 $2 $3;"
                                    "aeqpt $0 $1 $2 $3;tf $0 $1" % (v.ext(), v.ext(), v.fe())))
+    for op in ("addraw", "add", "sub"):
+        T.append(("pole-" + op, lambda v, op=op: "%s;%s $0 $1 $2 $3" % (v.pole(), op)))
     T.append(("cpt", lambda v: "cpt %s" % v.ext()))
     T.append(("ppt", lambda v: "ppt %s;w 1;w 1;aeqppt $2 $3 %s" % (v.ext(), v.ext())))
     T.append(("mulpt", lambda v: "pt %s;w %s;mulpt $2 $0 $1" % (v.ext(), v.fe())))
     T.append(("mulgen", lambda v: "w %s;mulgen $0 %s" % (v.fe(), ext_str(ext_of(GEN)))))
     T.append(("mulgen-badgen", lambda v: "w %s;mulgen $0 %s" % (v.fe(), v.ext())))
+    G2_ = random_subgroup_point(SplitMix(99))
+    T.append(("mulgen-gen2", lambda v: "w %s;mulgen $0 %s" % (v.fe(), ext_str(ext_of(G2_, z=5)))))
     T.append(("tfq", lambda v: "pt %s;tfq $0 $1 %s %s" % (v.ext(), v.fe(), v.fe())))
     return T
 
@@ -73,10 +95,12 @@ def run(ctx, broken):
     rng = SplitMix(ctx.seed * 1000003 + 7)
     T = templates()
     reps = 3 if ctx.tier == "quick" else 12
-    heavy = {"mulpt", "mulgen", "mulgen-badgen"}
+    heavy = {"mulpt", "mulgen", "mulgen-badgen", "mulgen-gen2"}
     cases, groups = [], []
     for name, fn in T:
         k = reps if name not in heavy else (3 if ctx.tier == "quick" else 8)
+        if name.startswith("pole-"):
+            k = 10 if ctx.tier == "quick" else 40
         if ctx.tier == "quick" and name.split("-")[0] in ("and", "xor", "trunc", "decomp", "rangebits") and len(name.split("-")) > 1:
             k = 2
         idx = []
@@ -100,6 +124,8 @@ def run(ctx, broken):
                 ctx.violation("impl:panic:" + name, {"kind": "implementation-vs-property", "why": "component panicked",
                                                       "request": lines[i], "impl_output": outs[i]})
         ok = [d for d in ds if d["_kind"] == "ok" and d.get("errs") == "[]"]
+        if name in CONSTANT_VARIES:
+            ok = ok[:1]
         for d in ok[1:]:
             n_cmp += 1
             if any(d.get(k) != ok[0].get(k) for k in SHAPE) and not reported:
@@ -115,6 +141,6 @@ def run(ctx, broken):
     st["rule"] = ("every public component, every const-generic width (range_bits 0..=256, range pairs, logic and/xor 0..=127, "
                   "truncate 0..=254, decomposition 1..=256), arithmetic/select/point/mul components; 2-3 value vectors per template "
                   "(12 in thorough) from {0,1,-1,2,r_J,r_J-1,2^252-1,2^252,2^254,2^k,2^k-1,random} and malformed points (Z=0,(0,0),"
-                  "inconsistent T, off-curve, torsion); debug-assertions+overflow-checks build. Checked: no panic; same gates/"
+                  "inconsistent T, off-curve, torsion), raw addends on both poles d*x1*x2*y1*y2 = +-1 of the addition law; debug-assertions+overflow-checks build. Checked: no panic; same gates/"
                   "public-input rows/witness count across value vectors unless an error is returned; impl shape == Lean model shape.")
     return st
